@@ -22,3 +22,9 @@ func (v *VerifReadBuffer) State() (cur, last, size int) { return v.b.cur, v.b.la
 
 // VerifReservedBuf is the size of the reserved section of the read buffer.
 const VerifReservedBuf = reservedbuf
+
+// Reset is readBuffer.Reset on the same (reused) buffer.
+func (v *VerifReadBuffer) Reset(r io.Reader, size int) { v.b.Reset(r, size) }
+
+// Cap reports the capacity of the underlying array.
+func (v *VerifReadBuffer) Cap() int { return cap(v.b.buf) }
